@@ -97,7 +97,8 @@ def confirm(chk, found, rerun):
         for e, name, w in items[:MAX_CONFIRM]:
             o = rerun(e)
             again = judge(chk, [o], 50)
-            if not any(n2 == name and w2 == w for _, n2, w2 in again.get(key, [])):
+            base = key.replace("beyond-recorded-extent|", "")
+            if not any(n2 == name and w2 == w for _, n2, w2 in again.get(base, [])):
                 raise vlib.Inconclusive("rejected observation did not reproduce: %s %s %s" % (key, name, w))
             ident = ("v=%s" % json.dumps(e["v"], separators=(",", ":"))) if e["ev"] == "poly" else \
                     ("random:seed=%d:idx=%d" % (chk.seed, e["idx"]))
@@ -106,6 +107,39 @@ def confirm(chk, found, rerun):
             chk.violation("%s:%s:at=%s" % (key, ident, json.dumps(w, separators=(",", ":"))),
                           "REAL " + describe(o, name, w) + " -> " + name, rep)
     return total
+
+
+def extent_guard(chk, plan_id, found):
+    """The lattice plans are deterministic, so the exact set of inputs that fail in a KNOWN class is fixed on the
+    unrepaired tree.  It is committed in known_extents.json; a failing input of a known class that is not in that
+    set is a different violation and is reported (a known finding must not hide new failures of its own class)."""
+    import hashlib, os
+    path = os.path.join(vlib.ROOT, "known_extents.json")
+    ext = json.load(open(path)) if os.path.exists(path) else {}
+    record = os.environ.get("VERIF_RECORD_EXTENTS") == "1"
+    out = {}
+    for key, items in found.items():
+        hs = {}
+        for e, name, w in items:
+            h = hashlib.sha1(json.dumps([e.get("v"), name, w], separators=(",", ":")).encode()).hexdigest()[:12]
+            hs[h] = (e, name, w)
+        pid = "%s|%s" % (plan_id, key)
+        if record:
+            ext[pid] = sorted(hs)
+            continue
+        known = set(ext.get(pid, []))
+        keep = []
+        for h, it in hs.items():
+            if h in known:
+                keep.append(it)
+            else:
+                out.setdefault("beyond-recorded-extent|" + key, []).append(it)
+        if keep:
+            out[key] = keep
+    if record:
+        json.dump(ext, open(path, "w"), indent=0, sort_keys=True)
+        return found
+    return out
 
 
 def run_lattice(chk, g, nmax, mode):
@@ -118,6 +152,7 @@ def run_lattice(chk, g, nmax, mode):
     obs = replay(chk, vec)
     chk.traces += len(obs)
     found = judge(chk, obs)
+    found = extent_guard(chk, "C04:%s:%d:%d" % (mode, g, nmax), found)
     total = confirm(chk, found, lambda e: replay(chk, [vec_of(e)])[0])
     npts = sum(len(o["lsf"]) for o in obs)
     chk.cov.setdefault("plans", []).append(dict(
